@@ -221,6 +221,7 @@ class Ctx:
         self.spec = spec
         self.mappable = mappable
         self.with_layout = with_layout
+        self.direct_n = None     # number of qubits of the register of a direct construction (set by its maker)
         if device is None:
             self.dev = Dev(spec)
             self.device = self.dev.device
@@ -244,12 +245,16 @@ class Ctx:
         if mappable or (with_layout and register is None):
             self.layout = RegisterLayout(self.coords)
             # trap ids are assigned by the layout (sorted coordinates): look them up
-            self.trap_of_coord = {tuple(np.round(c, 6)): i for i, c in enumerate(self.layout.coords.tolist())}
+            # trap ids by the DOCUMENTED rule (coordinates rounded to 6 decimals, sorted left to right then
+            # bottom to top) -- computed here, not read from the layout under test
+            self.sorted_coords = sorted(tuple(round(float(x), 6) + 0.0 for x in c) for c in self.coords)
+            self.trap_of_coord = {c: i for i, c in enumerate(self.sorted_coords)}
         if mappable:
             self.mreg = MappableRegister(self.layout, *self.qids)
         elif register is None:
             if with_layout:
-                traps = [self.trap_of_coord[tuple(np.round(self.coords[i], 6))] for i in range(len(self.qids))]
+                traps = [self.trap_of_coord[tuple(round(float(x), 6) + 0.0 for x in self.coords[i])]
+                         for i in range(len(self.qids))]
                 self.register = self.layout.define_register(*traps, qubit_ids=self.qids)
             else:
                 self.register = Register({q: self.coords[i] for i, q in enumerate(self.qids)})
@@ -260,7 +265,7 @@ class Ctx:
             return Sequence(self.mreg if self.mappable else self.register, self.device)
 
     def trap_coords(self, trap: int):
-        return tuple(self.layout.coords[trap].tolist())
+        return tuple(self.sorted_coords[trap])
 
     def detmap(self, weights: list, order: list | None = None):
         """The detuning map of a `detmap` op: weights per declared qubit index, put on the
@@ -406,11 +411,39 @@ def qid_list(ctx: Ctx, idx) -> list:
     return [ctx.qids[i] if 0 <= i < len(ctx.qids) else f"bogus{i}" for i in idx]
 
 
-def apply_op(seq: Sequence, ctx: Ctx, op: dict, mk, omit_defaults: bool = False):
+def _ids_of_indices(ctx: Ctx, indices, n_register: int) -> list:
+    """Index -> qubit id against the DECLARED order (ours), as the documentation of target_index /
+    phase_shift_index says; an index outside the register is refused like the library does."""
+    out = []
+    for i in indices:
+        i = int(i)
+        if not -n_register <= i < n_register:
+            raise IndexError("Indices must exist for the register.")
+        out.append(ctx.qids[:n_register][i])
+    return out
+
+
+def apply_op(seq: Sequence, ctx: Ctx, op: dict, mk, omit_defaults: bool = False, resolve_index: bool = False):
     """Run one op on `seq`; numeric arguments go through `mk`.  Raises what the API raises.
-    `omit_defaults`: do not pass optional arguments whose value is the default."""
+    `omit_defaults`: do not pass optional arguments whose value is the default.
+    `resolve_index` (direct constructions with evaluated values only): index-based targets are turned
+    into qubit ids HERE, from the declared order, and issued through the id-based calls."""
     k = op["k"]
     od = omit_defaults
+    if resolve_index and k in ("targeti", "shifti") and not seq.is_parametrized():
+        nreg = len(seq._register.qubit_ids) if ctx.direct_n is None else ctx.direct_n
+        if k == "targeti":
+            qs = op["qs"]
+            vals = mk(qs) if (is_expr(qs) or not isinstance(qs, list)) else [mk(x) for x in qs]
+            vals = list(vals) if isinstance(vals, (list, tuple)) else [vals]
+            if vals:
+                seq.target(_ids_of_indices(ctx, vals, nreg), real_name(op["ch"]))
+                return
+        else:
+            vals = [mk(x) for x in op["qs"]]
+            if vals:
+                seq.phase_shift(mk(op["phi"]), *_ids_of_indices(ctx, vals, nreg), basis=op["basis"])
+                return
 
     def opt(kwargs: dict, name: str, value, default):
         if not (od and not is_expr(value) and value == default):
@@ -486,12 +519,12 @@ def apply_op(seq: Sequence, ctx: Ctx, op: dict, mk, omit_defaults: bool = False)
         raise realcode.InfraError(f"unknown op {k}")
 
 
-def try_op(seq, ctx, op, mk, omit_defaults=False):
+def try_op(seq, ctx, op, mk, omit_defaults=False, resolve_index=False):
     """('ok', None) | ('err', class, exception)."""
     try:
         with warnings.catch_warnings():
             warnings.simplefilter("ignore")
-            apply_op(seq, ctx, op, mk, omit_defaults)
+            apply_op(seq, ctx, op, mk, omit_defaults, resolve_index)
         return ("ok", None, None)
     except realcode.InfraError:
         raise
@@ -504,6 +537,68 @@ def try_op(seq, ctx, op, mk, omit_defaults=False):
 # --------------------------------------------------------------------------------------
 class _Shim:
     pass
+
+
+def _wf_digest(wf) -> list:
+    """(length, sum, sum of squares, max, min, first, last, weighted sum) of the raw samples of a waveform."""
+    a = np.asarray(wf.samples.as_array(detach=True) if hasattr(wf.samples, "as_array") else wf.samples, dtype=float)
+    if a.size == 0:
+        return [0]
+    w = np.arange(1, a.size + 1, dtype=float)
+    return [int(a.size), float(a.sum()), float((a * a).sum()), float(a.max()), float(a.min()), float(a[0]),
+            float(a[-1]), float((a * w).sum() / a.size)]
+
+
+def canon_obj(x, skip=("short_description",)):
+    """Field-by-field view of a (data-class) object, independent of its own __eq__ / __hash__."""
+    import dataclasses
+    import enum
+
+    if hasattr(x, "coords") and hasattr(x, "slug") and hasattr(x, "number_of_traps"):
+        # a RegisterLayout: coordinates + slug are what the representation keeps (the special lattice
+        # classes are written as plain layouts by design)
+        return {"__class__": "RegisterLayout", "coords": np.asarray(x.coords, dtype=float).round(9).tolist(),
+                "slug": x.slug}
+    if dataclasses.is_dataclass(x) and not isinstance(x, type):
+        return {"__class__": type(x).__name__,
+                **{f.name: canon_obj(getattr(x, f.name), skip) for f in dataclasses.fields(x)
+                   if f.init and f.name not in skip}}
+    if isinstance(x, enum.Enum):
+        return x.name
+    if isinstance(x, dict):
+        return {str(k): canon_obj(v, skip) for k, v in x.items()}
+    if isinstance(x, (list, tuple)):
+        return [canon_obj(v, skip) for v in x]
+    if isinstance(x, (set, frozenset)):
+        return sorted(str(v) for v in x)
+    if isinstance(x, np.ndarray):
+        return x.tolist()
+    if isinstance(x, (np.integer, np.floating)):
+        return x.item()
+    if x is None or isinstance(x, (bool, int, float, str)):
+        return x
+    return repr(x)
+
+
+_SCHEMA_VALIDATOR = {}
+
+
+def schema_errors(doc: str) -> list:
+    """Validate a sequence document against the schema FILES of the tree with our own validator
+    (not through pulser.json.abstract_repr.validation)."""
+    import jsonschema
+    from referencing import Registry, Resource
+
+    import common
+
+    if "v" not in _SCHEMA_VALIDATOR:
+        d = common.REPO / "pulser-core" / "pulser" / "json" / "abstract_repr" / "schemas"
+        load = lambda n: json.loads((d / n).read_text())  # noqa: E731
+        reg = Registry().with_resources([(n, Resource.from_contents(load(n))) for n in
+                                         ("device-schema.json", "layout-schema.json", "register-schema.json",
+                                          "noise-schema.json")])
+        _SCHEMA_VALIDATOR["v"] = jsonschema.Draft7Validator(load("sequence-schema.json"), registry=reg)
+    return [e.message[:200] for e in list(_SCHEMA_VALIDATOR["v"].iter_errors(json.loads(doc)))[:2]]
 
 
 def seq_snapshot(seq: Sequence, ctx: Ctx, qids=None) -> dict:
@@ -544,6 +639,18 @@ def seq_snapshot(seq: Sequence, ctx: Ctx, qids=None) -> dict:
                     entry["qubit_weights"] = {str(q): float(v) for q, v in qw.items()}
                 except Exception as e:  # noqa: BLE001
                     entry["qubit_weights"] = f"error:{type(e).__name__}"
+    # the waveforms of every scheduled pulse, summarised from their raw samples (not through the sampler)
+    for name, sch in seq._schedule.items():
+        entry = snap["chans"][wire_name(name)]
+        for sl, out in zip(sch.slots, entry["slots"]):
+            if isinstance(sl.type, Pulse):
+                out["wf"] = [_wf_digest(sl.type.amplitude), _wf_digest(sl.type.detuning),
+                             float(sl.type.post_phase_shift)]
+    reg = seq._register
+    if not seq.is_register_mappable():
+        snap["register"] = [[str(q), [round(float(x), 9) for x in np.asarray(
+            reg.qubits[q].as_array() if hasattr(reg.qubits[q], "as_array") else reg.qubits[q], dtype=float)]]
+            for q in reg.qubit_ids]
     snap["chan_order"] = list(snap["chans"])
     snap.pop("ncalls", None)
     snap["qids"] = [str(q) for q in qids]
